@@ -30,7 +30,7 @@ func run(e *harness.Env) {
 		maxK, bound = 4, 3
 		e.SetBudget(14 * time.Minute)
 	}
-	e.Rule = "grid grammar: full product of K columns (1..2 quick plus K=3 for R=2, 1..4 thorough) x R rows (1,2,3,4,8) x W words per line (1..3) x API, and on top of each grid every " +
+	e.Rule = "grid grammar: full product of K columns (1..2 quick plus K=3 for R=2, 1..4 thorough) x R rows (1,2,3,8 quick; 1,2,3,4,8 thorough) x W words per line (1..3) x API, and on top of each grid every " +
 		"combination of at most 2 (quick) / 3 (thorough) deviations among: justified, heading (first/last column, or a 30pt in-column heading), short last line, single-word line, overhanging word (near/far), " +
 		"spanning title (top/mid), list markers (bullet/numbered/nested), RTL run, character-level fragmentation, exact duplicate overlay (all/line), inverted Y, coordinates x0.1, " +
 		"single narrow glyph line (I/1), repeated text at a different position (word / doubled letter), hyphenated line end, columns not baseline-aligned (stagger),  descending map order (APIs with paragraph detection), one absent cell per deviation. Reuse sub-space: for each of 12 detector/analyzer instance types, one instance analyses every ordered sequence A,B / A,B,A / A,A / A|B (thorough also A,B,C and A,B,A,B) over 17 reduced grammar pages with disjoint tokens; all results are rendered only afterwards and must equal the rendering by a fresh instance. distinct = distinct (API, grid, deviation vector); non-trivial = at least one deviation"
@@ -53,6 +53,9 @@ func run(e *harness.Env) {
 		}
 		for K := 1; K <= maxK+1; K++ {
 			for _, R := range []int{1, 2, 3, 4, 8} {
+				if !e.Thorough() && R == 4 {
+					continue // quick: 4-row grids only in the thorough tier (3 and 8 rows bracket them)
+				}
 				if K > maxK && (e.Thorough() || R != 2) {
 					continue // quick: three columns only on the 2-row grids (a column BETWEEN two others matters for block merging)
 				}
